@@ -207,23 +207,24 @@ def run(ck):
         "ASCII input; the kind of exception raised for invalid input is not judged",
     ]
     bg = BackgroundMC()
-    bg.start("MC:recogniser == generator (structure x EAPI x violation)", "AtomSyntax_MC",
-             "SPECIFICATION Spec\nCONSTANT Size = %d\nINVARIANT RoundTrip\nINVARIANT Violations\nINVARIANT Open\n" % size)
-    cases = ck.export("AtomSyntax_Export", cfg_text="CONSTANT Size = %d\n" % size, timeout=600)
-    if not cases:
-        raise tlc.MachineryError("empty export")
-    inputs = [("".join(chr(c) for c in c_["text"]), c_["eapi"], c_["kind"]) for c_ in cases]
-    ck.exhaustive = True
-    r = rng(3)
-    for _ in range(ck.pick(700, 12000)):
-        s = rand_valid(r)
-        e = r.choice(EAPIS + ["none", "none", "8"])
-        inputs.append((s, e, "random-valid"))
-        for _ in range(3):
-            inputs.append((mutate(r, s), r.choice([e, e, r.choice(EAPIS)]), "random-edit"))
     if ck.replay_case:
         d = ck.replay_case["detail"]
         inputs = [(d["text"], d["eapi"], "replay")]
+    else:
+        bg.start("MC:recogniser == generator (structure x EAPI x violation)", "AtomSyntax_MC",
+                 "SPECIFICATION Spec\nCONSTANT Size = %d\nINVARIANT RoundTrip\nINVARIANT Violations\nINVARIANT Open\n" % size)
+        cases = ck.export("AtomSyntax_Export", cfg_text="CONSTANT Size = %d\n" % size, timeout=600)
+        if not cases:
+            raise tlc.MachineryError("empty export")
+        inputs = [("".join(chr(c) for c in c_["text"]), c_["eapi"], c_["kind"]) for c_ in cases]
+        ck.exhaustive = True
+        r = rng(3)
+        for _ in range(ck.pick(700, 12000)):
+            s = rand_valid(r)
+            e = r.choice(EAPIS + ["none", "none", "8"])
+            inputs.append((s, e, "random-atom"))
+            for _ in range(3):
+                inputs.append((mutate(r, s), r.choice([e, e, r.choice(EAPIS)]), "random-edit"))
     seen, events, kinds = set(), [], []
     for text, eapi, kind in inputs:
         if (text, eapi) in seen:
